@@ -42,4 +42,10 @@ CHECKS = {
         "text": "All 17 default-rule shapes x 2 modes x every subset of the four stages (also defined only by a conditional step) x backtracking {unset,true,false} x forward_to {present,absent}, every ordering of <=4 step kinds, unknown ids, bad overrides and malformed conditions are loaded one rule per rule set through the real processor/factory; accepted rules are executed through the real executor and the probe trace is compared with the stage-wise model, backtracking is observed against a less specific companion rule. Exhaustive for the enumerated space.",
         "note": "Empty execute lists are not generated (rejected earlier by rule-set validation). Probes stand in for real mechanisms; only ids/order of executed mechanisms are compared.",
     },
+    "C03": {
+        "level": "exploration",
+        "technique": "runtime monitoring: reference-predicate oracle over generated matcher definitions and requests executed by the real rule executor; captures echoed by a header finalizer",
+        "text": "Generated rules (scheme, method lists with ALL/negation/duplicates, 0-3 hosts of each type, 10 route shapes with named/unnamed single and free wildcards, path_params of each type on single and free wildcards, all encoded-slash settings, decoy rules forcing backtracking out of a static branch) are loaded through the real factory; requests derived from each rule (every condition independently met/unmet, arbitrary percent-encoding of captured segments) are executed by the real executor and the matched rule id and .Request.URL.Captures, echoed by a header finalizer, are compared with a reference predicate. Held on the pairs executed.",
+        "note": "glob/regex pattern semantics are delegated to the same libraries; negations are generated only together with ALL; encoded slashes under `off` and lower-case %2f belong to C08; requests use the executor directly (scheme via X-Forwarded-Proto as a trusted proxy would set it).",
+    },
 }
